@@ -349,6 +349,26 @@ def run(tier, seed, replay):
         if os.path.isdir(d):
             for f in sorted(os.listdir(d)):
                 cases.append(json.load(open(os.path.join(d, f)))["case"])
+        # structured family: a transformed product (with an operator-valued function and a complex coefficient) as the
+        # right, left or inner factor of another product — the shapes the superoperator constructors build
+        def leaf_func():
+            return {"k": "func", "a": rnd_m(rng), "b": rnd_m(rng), "style": str(rng.choice(["plain", "args", "kwonly"]))}
+
+        def leaf_cplx():
+            return {"k": "evo", "m": rnd_m(rng), "c": [[int(rng.integers(-2, 3)), int(rng.integers(1, 3))], [int(rng.integers(-2, 3)), int(rng.integers(-2, 3))]],
+                    "style": str(rng.choice(["func", "str", "func_args"])), "grid": "u"}
+        for _ in range(40 if tier == "quick" else 300):
+            inner = {"k": "mul", "x": leaf_func(), "y": leaf_cplx()} if rng.random() < 0.5 else {"k": "mul", "x": leaf_cplx(), "y": leaf_func()}
+            if rng.random() < 0.3:
+                inner = {"k": "smul", "z": [int(rng.integers(-2, 3)), int(rng.integers(1, 3))], "side": "left", "x": inner}
+            tr_ = {"k": "tr", "g": str(rng.choice(["dag", "conj", "trans", "dag"])), "x": inner}
+            outer_k = gen_tree(rng, 1, tier)
+            shape_ = int(rng.integers(0, 4))
+            tree = [{"k": "mul", "x": outer_k, "y": tr_}, {"k": "mul", "x": tr_, "y": outer_k},
+                    {"k": "mul", "x": outer_k, "y": {"k": "mul", "x": tr_, "y": gen_tree(rng, 1, tier)}},
+                    {"k": "tr", "g": "dag", "x": {"k": "mul", "x": outer_k, "y": tr_}}][shape_]
+            ts = sorted(set(int(x) for x in rng.integers(-5, 6, size=3)))
+            cases.append({"t": ts, "tree": tree})
         n = 250 if tier == "quick" else 2500
         for _ in range(n):
             depth = int(rng.integers(1, 5 if tier == "quick" else 7))
